@@ -415,6 +415,40 @@ func doInstall(args []vlib.Sx) (res result, err error) {
 	if err3 != nil || best.Lookup(rune(high)) != 7 {
 		res.fail = fmt.Sprintf("GetBest on the installed table does not map code %d (err=%v)", high, err3)
 		res.sig = "c09-installcmap"
+		return res, nil
+	}
+	// InstallCMap REPLACES the character map, whatever the font held before
+	// (a table with subtables under other keys, of the other kind, from a file
+	// or from an earlier InstallCMap), and it leaves a copy of the font alone.
+	for _, prev := range []cmap.Subtable{
+		cmap.Format12{0x1F600: glyph.ID(6), 0x41: glyph.ID(4)},
+		cmap.Format4{0x41: glyph.ID(4), 0x5A: glyph.ID(29)},
+	} {
+		g := &sfnt.Font{}
+		g.InstallCMap(prev)
+		g.CMapTable[cmap.Key{PlatformID: 1, EncodingID: 0}] = table6(0, 65, 1, []uint16{9}, nil)
+		keep := *g // a copy of the font value taken before the second call
+		before := vlib.Str(tableSx(keep.CMapTable))
+		if p, msg := guard(func() { g.InstallCMap(s) }); p {
+			res.fail = "InstallCMap on a font with a character map panicked: " + msg
+			res.sig = "c09-installcmap"
+			return res, nil
+		}
+		if got := vlib.Str(tableSx(g.CMapTable)); got != vlib.Str(tableSx(f.CMapTable)) {
+			res.fail = "InstallCMap on a font that already had a character map leaves " + got + ", on a fresh font " + vlib.Str(tableSx(f.CMapTable))
+			res.sig = "c09-installcmap-replaces"
+			return res, nil
+		}
+		if b2, e := g.CMapTable.GetBest(); e != nil || b2.Lookup(rune(high)) != 7 || (high != 0x41 && b2.Lookup(0x41) != 0) || b2.Lookup(0x1F600) != 0 && high != 0x1F600 {
+			res.fail = fmt.Sprintf("after InstallCMap the best subtable still shows the previous mapping (code %d, err=%v)", high, e)
+			res.sig = "c09-installcmap-replaces"
+			return res, nil
+		}
+		if after := vlib.Str(tableSx(keep.CMapTable)); after != before {
+			res.fail = "InstallCMap on a font changed the character map of a copy of that font taken before the call: " + before + " became " + after
+			res.sig = "c09-installcmap-replaces"
+			return res, nil
+		}
 	}
 	return res, nil
 }
